@@ -25,14 +25,20 @@ type seqKind struct {
 	gap   int // ciphertext LogSlots = max - gap
 	level int
 	small bool
+	// scaled != 0: not a bootstrap but the circuit up to the modular reduction with EvalModAndScale(ct, scaled)
+	// (ScaleDown, ModUp, CoeffsToSlots, EvalModAndScale on the real and the imaginary half): the rarely used entry
+	// point that personalises the mod-1 polynomial per call. Same-ring configurations only.
+	scaled complex128
 }
 
 var seqKinds = []seqKind{
-	{"full", 1, 0, 0, false},
-	{"sparse", 1, 2, 0, false},
-	{"level1", 1, 0, 1, false},
-	{"batch2-sparse", 2, 1, 0, false},
-	{"batch3-sparser-small", 3, 2, 0, true},
+	{"full", 1, 0, 0, false, 0},
+	{"sparse", 1, 2, 0, false, 0},
+	{"level1", 1, 0, 1, false, 0},
+	{"batch2-sparse", 2, 1, 0, false, 0},
+	{"batch3-sparser-small", 3, 2, 0, true, 0},
+	{"evalmod-scaled-0.5", 1, 0, 0, false, 0.5},
+	{"evalmod-scaled-2i", 1, 0, 0, false, 2i},
 }
 
 func sameCiphertexts(a, b []rlwe.Ciphertext) string {
@@ -60,7 +66,11 @@ func sameCiphertexts(a, b []rlwe.Ciphertext) string {
 func sequenceScenario(logN, residual int, first seqKind) engine.Scenario {
 	name := fmt.Sprintf("seq/N%d/res%d/first=%s", logN, residual, first.name)
 	return engine.Scenario{Name: name, Bound: -1, Fn: func(c *engine.Chooser) {
-		second := seqKinds[c.Choose(len(seqKinds), "second")]
+		kinds := seqKinds
+		if residual != 0 {
+			kinds = seqKinds[:5] // the partial circuit is driven on the bootstrapping ring directly
+		}
+		second := kinds[c.Choose(len(kinds), "second")]
 		uni.Seed(c, name, second.name)
 		k := cfg{LogN: logN, LogSlots: logN - 1, Residual: residual}
 		resLit, btpLit := k.literals()
@@ -109,10 +119,35 @@ func sequenceScenario(logN, residual int, first seqKind) engine.Scenario {
 		}
 		// inputs that hit a recorded defect (packing above level 0, conjugate-invariant sparse input) still must behave
 		// the same on every evaluator: errors and panics are compared as outcomes too
+		var current seqKind
 		run := func(ev *bootstrapping.Evaluator, in []rlwe.Ciphertext) (out []rlwe.Ciphertext, outcome string) {
+			kd := current
 			_, p := uni.Try(func() error {
 				var err error
-				if out, err = ev.BootstrapMany(clone(in)); err != nil {
+				if kd.scaled == 0 {
+					if out, err = ev.BootstrapMany(clone(in)); err != nil {
+						outcome = "error: " + err.Error()
+					}
+					return nil
+				}
+				ct := in[0].CopyNew()
+				if ct, _, err = ev.ScaleDown(ct); err == nil {
+					if ct, err = ev.ModUp(ct); err == nil {
+						var re, im *rlwe.Ciphertext
+						if re, im, err = ev.CoeffsToSlots(ct); err == nil {
+							for _, half := range []*rlwe.Ciphertext{re, im} {
+								if half == nil || err != nil {
+									continue
+								}
+								var o *rlwe.Ciphertext
+								if o, err = ev.EvalModAndScale(half, kd.scaled); err == nil {
+									out = append(out, *o)
+								}
+							}
+						}
+					}
+				}
+				if err != nil {
 					outcome = "error: " + err.Error()
 				}
 				return nil
@@ -124,7 +159,9 @@ func sequenceScenario(logN, residual int, first seqKind) engine.Scenario {
 		}
 		a, b := mk(first, 10), mk(second, 20)
 		used := s.eval
+		current = first
 		run(used, a)
+		current = second
 		gotUsed, oUsed := run(used, b)
 		fresh, err := bootstrapping.NewEvaluator(s.btp, s.evk)
 		if err != nil {
@@ -172,6 +209,9 @@ func sequenceScenarios(tier string) []engine.Scenario {
 	for _, n := range logNs {
 		for _, r := range []int{0, 1, 2} {
 			for _, f := range seqKinds {
+				if f.scaled != 0 && r != 0 {
+					continue
+				}
 				scs = append(scs, sequenceScenario(n, r, f))
 			}
 		}
